@@ -1,5 +1,6 @@
 """C06 - uniform fields stay uniform: constants are diffusion-free and advect as c*div(u)."""
 import opscheck
+import opsdrive
 
 CLAUSES = ["C06_DiffConst", "C06_CentralConst", "C06_UpwindConst", "C06_UpwindAltConst",
            "C06_SourceDiag", "C06_SourceVec", "C06_SourceSolve", "C06_TvdConst"]
@@ -13,7 +14,7 @@ def run(tier, seed):
     steady = dict(clauses_for=lambda cfg: ["C06_Steady"], n_quick=4, n_thorough=40, gen_kw=[{}],
                   generator=maxdrive.gen, observe=maxdrive.observe)
     return opscheck.run_property(
-        "C06", tier, seed, design=opscheck.design_ops("C06", None), clauses_for=lambda cfg: CLAUSES, n_quick=18, n_thorough=150,
+        "C06", tier, seed, design=opscheck.design_ops("C06", None), clauses_for=lambda cfg: CLAUSES, extra_configs=opsdrive.systematic_configs(), n_quick=18, n_thorough=150,
         gen_kw=[{}, {"nmax": 2}], extra_conform=[], parts=[steady],
         rule="9 grid classes x seeded spacings / D fields / velocity sign patterns; row sums of every advection-"
              "diffusion matrix against the code's own divergence of u; source terms entrywise")
